@@ -38,9 +38,10 @@ type scen struct {
 }
 
 type cin struct {
-	Op string // w r close dl
-	ID int
-	DL string
+	Op   string // w r close dl
+	ID   int
+	DL   string
+	Must bool // read: a passed deadline was in force when the call began and no Set overlapped the read
 }
 type cout struct {
 	ID  int // read: id | -1 EOF | -2 timeout | -3 other ; write: 0 ok | -1 refused
@@ -78,6 +79,11 @@ func model() porcupine.Model {
 			default: // read
 				if o.ID == -2 {
 					return s.past, s
+				}
+				if i.Must {
+					// the deadline had passed before this read was called and was not changed during it:
+					// every such read fails with a timeout (a read already in flight when the deadline passes may still return data)
+					return false, s
 				}
 				if len(s.q) > 0 {
 					rs := []rune(s.q)
@@ -264,6 +270,33 @@ func runOne(sc *scen, st sched.Strategy, settle bool, hit map[int]bool) result {
 	}
 	for _, o := range h {
 		res.hist = append(res.hist, fmt.Sprintf("c%d[%d,%d]%v->%v", o.ClientId, o.Call, o.Return, o.Input, o.Output))
+	}
+	// reads that began after Set(past) had returned, with no other Set during the read, must time out
+	for k, o := range h {
+		in := o.Input.(cin)
+		if in.Op != "r" {
+			continue
+		}
+		var last *porcupine.Operation
+		for j := range h {
+			d := h[j]
+			if d.Input.(cin).Op == "dl" && d.Return < o.Call && (last == nil || d.Call > last.Call) {
+				last = &h[j]
+			}
+		}
+		if last == nil || last.Input.(cin).DL != "past" {
+			continue
+		}
+		overl := false
+		for _, d := range h {
+			if d.Input.(cin).Op == "dl" && d.Call > last.Call && d.Call < o.Return {
+				overl = true
+			}
+		}
+		if !overl {
+			in.Must = true
+			h[k].Input = in
+		}
 	}
 	if res.key == "" && out != sched.TimedOut {
 		for _, o := range h {
